@@ -207,6 +207,9 @@ func (p *Plan) Shrink() []*Plan {
 	return out
 }
 
+// Seed0 is a small number derived from the plan itself (stable under replay).
+func (p *Plan) Seed0() int { return p.Fn + p.Cap + p.Par + len(p.Inputs) + p.N }
+
 // Violation of one oracle clause.
 type Violation struct {
 	Property string `json:"property"`
